@@ -732,6 +732,11 @@ impl AstLowering {
         match &expr.node {
             ast::Expr::Literal(ast::Literal::Int(n)) => Some(*n),
             ast::Expr::Unary(ast::UnaryOp::Neg, inner) => {
+                // Look through parentheses: they are dropped below, and the emitter classifies the lowered operand.
+                let mut inner = inner;
+                while let ast::Expr::Paren(p) = &inner.node {
+                    inner = p;
+                }
                 if let ast::Expr::Literal(ast::Literal::Int(n)) = &inner.node {
                     Some(-n)
                 } else {
